@@ -102,48 +102,64 @@ def new_cpu(cfg_path=None, cls=None, pattern=True, **ov):
 
 # ------------------------------------------------------------------------------------------------ snapshots
 class Plan:
-    """Accessor plan for one processor instance: a fixed, introspected list of every state location."""
+    """Accessor plan for one processor instance: a fixed, introspected list of every state location.
+
+    Locations are grouped by kind so that snapshot/restore are a handful of bulk operations:
+    the _R dict, plain int/bool attributes of Registers, register objects (.value), lists."""
 
     def __init__(self, cpu):
         from armulator.armv6.all_registers.abstract_register import AbstractRegister
         regs = cpu.registers
-        self.names = []
-        self.get = []
-        self.set = []
-        R = regs._R
-        for rn in sorted(R, key=lambda r: r.value):
-            self._add("R." + rn.name, (lambda R=R, rn=rn: R[rn]), (lambda v, R=R, rn=rn: R.__setitem__(rn, v)))
+        self.cpu = cpu
+        self.R = regs._R
+        self.rkeys = sorted(self.R, key=lambda r: r.value)
+        self.names = ["R." + rn.name for rn in self.rkeys]
+        self.plain = []          # attribute names of regs holding int/bool/None
+        self.objs = []           # register objects
+        self.lists = []          # (list, is_register_list)
+        self.opaque = []         # unknown kinds, kept visible via repr
+        obj_names = []
+        list_names = []
         for name in sorted(vars(regs)):
             if name in ("_R", "changed_registers"):
                 continue
             v = getattr(regs, name)
             if isinstance(v, AbstractRegister):
-                self._add(name, (lambda o=v: o.value), (lambda x, o=v: setattr(o, "value", x)))
+                self.objs.append(v)
+                obj_names.append(name)
             elif isinstance(v, list):
-                for i, e in enumerate(v):
-                    if isinstance(e, AbstractRegister):
-                        self._add("%s[%d]" % (name, i), (lambda o=e: o.value), (lambda x, o=e: setattr(o, "value", x)))
-                    else:
-                        self._add("%s[%d]" % (name, i), (lambda l=v, i=i: l[i]), (lambda x, l=v, i=i: l.__setitem__(i, x)))
+                isreg = bool(v) and isinstance(v[0], AbstractRegister)
+                self.lists.append((v, isreg))
+                list_names += ["%s[%d]" % (name, i) for i in range(len(v))]
             elif isinstance(v, (int, bool)) or v is None:
-                self._add(name, (lambda r=regs, n=name: getattr(r, n)), (lambda x, r=regs, n=name: setattr(r, n, x)))
+                self.plain.append(name)
             else:
-                # unknown kind of state: keep it visible rather than silently skipped
-                self._add(name + "(repr)", (lambda r=regs, n=name: repr(getattr(r, n))), None)
-        for name in ("is_wait_for_event", "is_wait_for_interrupt", "run"):
-            if hasattr(cpu, name):
-                self._add("cpu." + name, (lambda c=cpu, n=name: getattr(c, n)), (lambda x, c=cpu, n=name: setattr(c, n, x)))
-        self.nreg = len(self.names)
-        self.cpu = cpu
+                self.opaque.append(name)
+        self.cpu_attrs = [n for n in ("is_wait_for_event", "is_wait_for_interrupt", "run") if hasattr(cpu, n)]
+        self.names += list(self.plain) + obj_names + list_names + ["cpu." + n for n in self.cpu_attrs] + \
+            [n + "(repr)" for n in self.opaque]
+        self.regs_dict = vars(regs)
         self.index = {n: i for i, n in enumerate(self.names)}
-
-    def _add(self, name, g, s):
-        self.names.append(name)
-        self.get.append(g)
-        self.set.append(s)
+        self.nreg = len(self.names)
+        self._o_plain = len(self.rkeys)
+        self._o_objs = self._o_plain + len(self.plain)
+        self._o_lists = self._o_objs + len(self.objs)
 
     def regs(self):
-        return tuple([g() for g in self.get])
+        R = self.R
+        d = self.regs_dict
+        out = [R[k] for k in self.rkeys]
+        out += [d[n] for n in self.plain]
+        out += [o.value for o in self.objs]
+        for lst, isreg in self.lists:
+            if isreg:
+                out += [o.value for o in lst]
+            else:
+                out += lst
+        cpu = self.cpu
+        out += [getattr(cpu, n) for n in self.cpu_attrs]
+        out += [repr(d[n]) for n in self.opaque]
+        return tuple(out)
 
     def mem(self):
         return tuple([(mc.beginning, mc.end, bytes(mc.mem.memory_array)) for mc in self.cpu.mem.memories])
@@ -153,9 +169,7 @@ class Plan:
 
     def restore(self, snap):
         regs, mem = snap
-        for s, v in zip(self.set, regs):
-            if s is not None:
-                s(v)
+        self.restore_regs(regs)
         mems = self.cpu.mem.memories
         if len(mems) != len(mem):
             raise RuntimeError("device list changed")
@@ -163,13 +177,41 @@ class Plan:
             mc.beginning = b
             mc.end = e
             mc.mem.memory_array[:] = data
-        self.reset_scratch()
 
-    def restore_regs(self, regs):
-        for s, v in zip(self.set, regs):
-            if s is not None:
-                s(v)
-        self.reset_scratch()
+    def restore_regs(self, regs, scratch=True):
+        R = self.R
+        i = 0
+        for k in self.rkeys:
+            R[k] = regs[i]
+            i += 1
+        d = self.regs_dict
+        for n in self.plain:
+            d[n] = regs[i]
+            i += 1
+        for o in self.objs:
+            o.value = regs[i]
+            i += 1
+        for lst, isreg in self.lists:
+            if isreg:
+                for o in lst:
+                    o.value = regs[i]
+                    i += 1
+            else:
+                n = len(lst)
+                lst[:] = regs[i:i + n]
+                i += n
+        cpu = self.cpu
+        for n in self.cpu_attrs:
+            setattr(cpu, n, regs[i])
+            i += 1
+        if scratch:
+            self.reset_scratch()
+
+    def set_loc(self, name, value):
+        """Assigns one location by name (slow path, for tests)."""
+        regs = list(self.regs())
+        regs[self.index[name]] = value
+        self.restore_regs(tuple(regs))
 
     def reset_scratch(self):
         cpu = self.cpu
@@ -183,9 +225,12 @@ class Plan:
         out = []
         ra, ma = a
         rb, mb = b
-        for n, x, y in zip(self.names, ra, rb):
-            if x != y or type(x) is not type(y) and not (isinstance(x, int) and isinstance(y, int)):
-                out.append((n, x, y))
+        if ra != rb:
+            for n, x, y in zip(self.names, ra, rb):
+                if x != y:
+                    out.append((n, x, y))
+        if ma == mb:
+            return out
         if len(ma) != len(mb):
             out.append(("devices", len(ma), len(mb)))
         for (b1, e1, d1), (b2, e2, d2) in zip(ma, mb):
